@@ -160,6 +160,8 @@ class Interp(Engine):
         return v
 
     def setattr_(self, v, name, val):
+        if hasattr(v, "__pyvc_setattr__"):  # extension values (pyvc/ext_*.py) with their own attribute store
+            return v.__pyvc_setattr__(self, name, val)
         if isinstance(v, Obj):
             r = self.find_method(v.cls, name)
             if r is not None and r[0] == "prop":
